@@ -35,9 +35,9 @@ def _configs():
 def space(tier):
     cfgs = _configs()
     if tier == "thorough":
-        docs = [spaces.block_space("rule", 3), spaces.block_space("core", 3), spaces.block_space("wide", 2), spaces.mix_space(tier)]
+        docs = [spaces.block_space("rule", 3), spaces.block_space("core", 3), spaces.block_space("wide", 2), spaces.mix_space(tier), spaces.levels_space(tier)]
     else:
-        docs = [spaces.block_space("rule", 2), spaces.block_space("core", 2), spaces.block_space("wide", 1), spaces.mix_space(tier)]
+        docs = [spaces.block_space("rule", 2), spaces.block_space("core", 2), spaces.block_space("wide", 1), spaces.mix_space(tier), spaces.levels_space(tier)]
     return spaces.UnionSpace(f"fix-{tier}", [spaces.ConfigDocSpace(d, cfgs) for d in docs])
 
 
